@@ -168,6 +168,11 @@ def run_case(case, ctx):
         d0 = int(rng.integers(-5, 3))
         disps = d0 + np.arange(nd) / float(subpix) if subpix > 1 else d0 + np.arange(nd)
         costs, lo, hi = gen.synth_costs(rng, rows, cols, nd, nan_kind=nan_kind, floaty=floaty)
+        if nd > 256:
+            # directed: one pixel whose (first) best cost sits at the last sample
+            costs[0, 0, :] = 50.0
+            costs[0, 0, nd - 1] = -1.0 if tm == "min" else 1000.0
+            lo[0, 0], hi[0, 0] = 0, nd - 1
         if rows > 100 and cols > 100:
             # directed: a tie and an all-NaN pixel in a non-first block
             costs[150 % rows, 120 % cols, :] = 1.0
